@@ -842,9 +842,148 @@ theorem mem_typed_of_mem {κ : Type} [DecidableEq κ] (key : List Nat → κ) (t
 
 /-! ### retype -/
 
+/-! #### the stable insertion sort -/
+
+theorem insertBy_perm {α} (le : α → α → Bool) (x : α) (l : List α) : (insertBy le x l).Perm (x :: l) := by
+  induction l with
+  | nil => simp [insertBy]
+  | cons y ys ih =>
+    unfold insertBy
+    split
+    · exact List.Perm.refl _
+    · exact (List.Perm.cons y ih).trans (List.Perm.swap x y ys)
+
+theorem sortBy_perm {α} (le : α → α → Bool) (l : List α) : (sortBy le l).Perm l := by
+  induction l with
+  | nil => simp [sortBy]
+  | cons x xs ih =>
+    show (insertBy le x (sortBy le xs)).Perm (x :: xs)
+    exact (insertBy_perm le x _).trans (List.Perm.cons x ih)
+
+/-- the order a STABLE sort by `le` produces from a list whose elements are pairwise related by `R` in their original
+    order: strictly smaller key first, and among equal keys the original (`R`) order -/
+def StableOrder {α} (le : α → α → Bool) (R : α → α → Prop) (a b : α) : Prop :=
+  (le a b = true ∧ le b a = false) ∨ (le a b = true ∧ le b a = true ∧ R a b)
+
+theorem StableOrder.le {α} {le : α → α → Bool} {R : α → α → Prop} {a b : α} (h : StableOrder le R a b) :
+    le a b = true := by
+  rcases h with h | h
+  · exact h.1
+  · exact h.1
+
+theorem insertBy_stable {α} (le : α → α → Bool) (R : α → α → Prop)
+    (htrans : ∀ a b c, le a b = true → le b c = true → le a c = true)
+    (htotal : ∀ a b, le a b = true ∨ le b a = true)
+    (x : α) (l : List α) (hl : l.Pairwise (StableOrder le R)) (hx : ∀ y ∈ l, R x y) :
+    (insertBy le x l).Pairwise (StableOrder le R) := by
+  induction l with
+  | nil => simp [insertBy]
+  | cons y ys ih =>
+    have hy := List.pairwise_cons.mp hl
+    unfold insertBy
+    split
+    · rename_i hxy
+      refine List.pairwise_cons.mpr ⟨?_, hl⟩
+      intro z hz
+      have hxz : le x z = true := by
+        rcases List.mem_cons.mp hz with rfl | hz'
+        · exact hxy
+        · exact htrans x y z hxy (hy.1 z hz').le
+      cases hzx : le z x with
+      | false => exact Or.inl ⟨hxz, hzx⟩
+      | true => exact Or.inr ⟨hxz, hzx, hx z hz⟩
+    · rename_i hxy
+      have hxy' : le x y = false := by simpa using hxy
+      have hyx : le y x = true := by
+        rcases htotal x y with h | h
+        · rw [hxy'] at h; cases h
+        · exact h
+      refine List.pairwise_cons.mpr ⟨?_, ih hy.2 (fun z hz => hx z (List.mem_cons_of_mem _ hz))⟩
+      intro z hz
+      rcases List.mem_cons.mp ((insertBy_perm le x ys).mem_iff.mp hz) with rfl | hz'
+      · exact Or.inl ⟨hyx, hxy'⟩
+      · exact hy.1 z hz'
+
+/-- **stability of the sort**: a list in `R`-order is brought into key order with `R` kept among equal keys -/
+theorem sortBy_stable {α} (le : α → α → Bool) (R : α → α → Prop)
+    (htrans : ∀ a b c, le a b = true → le b c = true → le a c = true)
+    (htotal : ∀ a b, le a b = true ∨ le b a = true)
+    (l : List α) (hl : l.Pairwise R) : (sortBy le l).Pairwise (StableOrder le R) := by
+  induction l with
+  | nil => simp [sortBy]
+  | cons x xs ih =>
+    have hx := List.pairwise_cons.mp hl
+    show (insertBy le x (sortBy le xs)).Pairwise _
+    refine insertBy_stable le R htrans htotal x _ (ih hx.2) ?_
+    intro y hy
+    exact hx.1 y ((sortBy_perm le xs).mem_iff.mp hy)
+
+/-- a permutation of a list that is strictly ordered by an asymmetric relation, itself strictly ordered, is that list:
+    the sorted order is unique -/
+theorem sorted_perm_unique {α} (T : α → α → Prop) (hasym : ∀ a b, T a b → ¬ T b a)
+    (l1 l2 : List α) (hp : l1.Perm l2) (h1 : l1.Pairwise T) (h2 : l2.Pairwise T) : l1 = l2 := by
+  induction l1 generalizing l2 with
+  | nil => exact (List.Perm.nil_eq hp)
+  | cons x xs ih =>
+    cases l2 with
+    | nil => exact absurd hp.length_eq (by simp)
+    | cons y ys =>
+      have hx := List.pairwise_cons.mp h1
+      have hy := List.pairwise_cons.mp h2
+      have hxy : x = y := by
+        apply Classical.byContradiction
+        intro hne
+        have hx' : x ∈ ys := by
+          rcases List.mem_cons.mp (hp.mem_iff.mp List.mem_cons_self) with h | h
+          · exact absurd h hne
+          · exact h
+        have hy' : y ∈ xs := by
+          rcases List.mem_cons.mp (hp.mem_iff.mpr List.mem_cons_self) with h | h
+          · exact absurd h.symm hne
+          · exact h
+        exact hasym x y (hx.1 y hy') (hy.1 x hx')
+      subst hxy
+      rw [ih ys (List.Perm.cons_inv hp) hx.2 hy.2]
+
 theorem sortedTypes_perm (tbl : List (String × Dec)) (nt : List String) : (sortedTypes tbl nt).Perm (dedup nt) := by
   unfold sortedTypes
-  exact (List.mergeSort_perm _ _).trans (List.mergeSort_perm _ _)
+  exact (sortBy_perm _ _).trans (sortBy_perm _ _)
+
+/-- the order of the retype labels: periodic-table position first, then the string order -/
+def LabelOrder (tbl : List (String × Dec)) (a b : String) : Prop :=
+  ptableKeyOf tbl a < ptableKeyOf tbl b ∨ (ptableKeyOf tbl a = ptableKeyOf tbl b ∧ a < b)
+
+theorem sortedTypes_ordered (tbl : List (String × Dec)) (nt : List String) :
+    (sortedTypes tbl nt).Pairwise (LabelOrder tbl) := by
+  unfold sortedTypes
+  -- first sort: strictly increasing strings
+  have h1 : (sortBy (fun a b : String => decide (a ≤ b)) (dedup nt)).Pairwise (fun a b => a < b) := by
+    have := sortBy_stable (fun a b : String => decide (a ≤ b)) (fun a b => a ≠ b)
+      (fun a b c hab hbc => by
+        simp only [decide_eq_true_eq] at *
+        exact String.le_trans hab hbc)
+      (fun a b => by
+        simp only [decide_eq_true_eq]
+        exact String.le_total a b)
+      (dedup nt) (nodup_dedup nt)
+    refine this.imp ?_
+    intro a b h
+    rcases h with ⟨_, hba⟩ | ⟨hab, hba, hne⟩
+    · have : ¬ b ≤ a := by simpa using hba
+      exact String.not_le.mp this
+    · simp only [decide_eq_true_eq] at hab hba
+      exact absurd (String.le_antisymm hab hba) hne
+  have h2 := sortBy_stable (fun a b : String => decide (ptableKeyOf tbl a ≤ ptableKeyOf tbl b)) (fun a b => a < b)
+    (fun a b c hab hbc => by simp only [decide_eq_true_eq] at *; omega)
+    (fun a b => by simp only [decide_eq_true_eq]; omega)
+    _ h1
+  refine h2.imp ?_
+  intro a b h
+  rcases h with ⟨hab, hba⟩ | ⟨hab, hba, hlt⟩
+  · simp only [decide_eq_true_eq, decide_eq_false_iff_not] at hab hba
+    exact Or.inl (by omega)
+  · simp only [decide_eq_true_eq] at hab hba
+    exact Or.inr ⟨by omega, hlt⟩
 
 theorem lookup_of_index (tbl : List (String × Dec)) (e : String)
     (h : (ptableIndex tbl e).isNone = false) : ∃ d, lookup tbl e = some d := by
@@ -876,5 +1015,76 @@ theorem retype_ok (tbl : List (String × Dec)) (pairText : String → String) (n
     cases hc : (ptableIndex tbl (elementOf s)).isNone with
     | false => rfl
     | true => exact absurd (List.any_eq_true.mpr ⟨s, hs, hc⟩) hn
+
+/-! ### outcome of the dihedral assignment, and renaming at the level of the checked entry points -/
+
+theorem assignDihedralsCore_cases (uff : Nat → String) (dparams : DKey → DParam) (excl : Option (List Nat))
+    (terms : List (List Nat)) :
+    ((∃ r, assignDihedralsCore uff dparams excl terms = .ok r) ∧
+        ∀ t ∈ applyExclude 4 excl terms, dparams (dihedralKey uff terms t) ≠ .unsupported) ∨
+    (assignDihedralsCore uff dparams excl terms = .error (.reject "unsupported") ∧
+        ∃ t ∈ applyExclude 4 excl terms, dparams (dihedralKey uff terms t) = .unsupported) := by
+  by_cases hany : (dedup ((applyExclude 4 excl terms).map (dihedralKey uff terms))).any
+      (fun k => dparams k == .unsupported) = true
+  · right
+    refine ⟨by unfold assignDihedralsCore; simp only [hany, if_true], ?_⟩
+    obtain ⟨k, hk, hu⟩ := List.any_eq_true.mp hany
+    obtain ⟨t, ht, rfl⟩ := List.mem_map.mp ((mem_dedup _ _).mp hk)
+    exact ⟨t, ht, by simpa using hu⟩
+  · left
+    have hex : ∃ r, assignDihedralsCore uff dparams excl terms = .ok r := by
+      unfold assignDihedralsCore; simp only [hany]; exact ⟨_, rfl⟩
+    obtain ⟨r, hr⟩ := hex
+    exact ⟨⟨r, hr⟩, (assignDihedralsCore_ok uff dparams excl terms r hr).1⟩
+
+theorem dihedralKey_rename (σ : Nat → Nat) (hσ : ∀ a b, σ a = σ b → a = b) (uff uff' : Nat → String)
+    (huff : ∀ a, uff' (σ a) = uff a) (terms terms' : List (List Nat))
+    (hperm : terms'.Perm (terms.map (·.map σ))) (har : ∀ t ∈ terms, t.length = 4) (t : List Nat) (ht : t ∈ terms) :
+    dihedralKey uff' terms' (t.map σ) = dihedralKey uff terms t := by
+  unfold dihedralKey
+  rw [seqKey_rename σ uff uff' huff t, torsionCount_rename σ hσ terms terms' hperm har t (har t ht)]
+
+theorem uffFn_rename (σ : Nat → Nat) (uff uff' : List String) (huff : ∀ a, uff'[σ a]? = uff[a]?) (a : Nat) :
+    uffFn uff' (σ a) = uffFn uff a := by
+  unfold uffFn; rw [huff a]
+
+theorem checkTerms_rename (arity : Nat) (σ : Nat → Nat) (uff uff' : List String) (huff : ∀ a, uff'[σ a]? = uff[a]?)
+    (terms terms' : List (List Nat)) (hperm : terms'.Perm (terms.map (·.map σ))) :
+    checkTerms arity uff' terms' = checkTerms arity uff terms := by
+  have h1 : terms'.any (fun t => t.length != arity) = terms.any (fun t => t.length != arity) := by
+    rw [Bool.eq_iff_iff, List.any_eq_true, List.any_eq_true]
+    constructor
+    · rintro ⟨t', ht', hl⟩
+      obtain ⟨t, ht, rfl⟩ := List.mem_map.mp (hperm.mem_iff.mp ht')
+      exact ⟨t, ht, by simpa using hl⟩
+    · rintro ⟨t, ht, hl⟩
+      exact ⟨t.map σ, hperm.mem_iff.mpr (List.mem_map.mpr ⟨t, ht, rfl⟩), by simpa using hl⟩
+  have hge : ∀ a, σ a ≥ uff'.length ↔ a ≥ uff.length := by
+    intro a
+    have := huff a
+    constructor
+    · intro h
+      have h' : uff'[σ a]? = none := List.getElem?_eq_none_iff.mpr h
+      rw [this] at h'
+      exact List.getElem?_eq_none_iff.mp h'
+    · intro h
+      have h' : uff[a]? = none := List.getElem?_eq_none_iff.mpr h
+      rw [← this] at h'
+      exact List.getElem?_eq_none_iff.mp h'
+  have h2 : terms'.any (fun t => t.any (fun a => decide (a ≥ uff'.length)))
+      = terms.any (fun t => t.any (fun a => decide (a ≥ uff.length))) := by
+    rw [Bool.eq_iff_iff, List.any_eq_true, List.any_eq_true]
+    constructor
+    · rintro ⟨t', ht', hl⟩
+      obtain ⟨t, ht, rfl⟩ := List.mem_map.mp (hperm.mem_iff.mp ht')
+      obtain ⟨a', ha', hg⟩ := List.any_eq_true.mp hl
+      obtain ⟨a, ha, rfl⟩ := List.mem_map.mp ha'
+      exact ⟨t, ht, List.any_eq_true.mpr ⟨a, ha, by simpa using (hge a).mp (by simpa using hg)⟩⟩
+    · rintro ⟨t, ht, hl⟩
+      obtain ⟨a, ha, hg⟩ := List.any_eq_true.mp hl
+      refine ⟨t.map σ, hperm.mem_iff.mpr (List.mem_map.mpr ⟨t, ht, rfl⟩), ?_⟩
+      exact List.any_eq_true.mpr ⟨σ a, List.mem_map.mpr ⟨a, ha, rfl⟩, by simpa using (hge a).mpr (by simpa using hg)⟩
+  unfold checkTerms
+  rw [h1, h2]
 
 end Mofun.Terms
